@@ -12,8 +12,13 @@ B = ["F", "U"]
 
 
 def real_apply(ST, ST_INV, op, a, b):
+    if a not in ST or b not in ST:      # the result of an application that already failed
+        return "undefined"
     x, y = ST[a], ST[b]
-    r = {"and": lambda: x & y, "or": lambda: x | y, "xor": lambda: x ^ y}[op]()
+    try:
+        r = {"and": lambda: x & y, "or": lambda: x | y, "xor": lambda: x ^ y}[op]()
+    except Exception as e:  # noqa: BLE001 - the operators are total on the four values: an exception is a (wrong) result, not a harness failure
+        return f"raises {type(e).__name__}"
     return ST_INV.get(r, repr(r))
 
 
